@@ -51,7 +51,7 @@ type proc struct {
 func start(cfg *Config) (*proc, error) {
 	sh := fmt.Sprintf("ulimit -v %d; exec %s %s", cfg.MemKB, cfg.Worker, cfg.PkgFile)
 	c := exec.Command("sh", "-c", sh)
-	c.SysProcAttr = &syscall.SysProcAttr{Setpgid: true}
+	c.SysProcAttr = &syscall.SysProcAttr{Setpgid: true, Pdeathsig: syscall.SIGKILL}
 	stdin, err := c.StdinPipe()
 	if err != nil {
 		return nil, err
@@ -97,7 +97,7 @@ func Run(cfg *Config, cmds []*Cmd, onEvent func(cid int, line []byte)) (*Stats, 
 		cfg.MemKB = 3000000
 	}
 	if cfg.OpTimeout == 0 {
-		cfg.OpTimeout = 20 * time.Second
+		cfg.OpTimeout = 10 * time.Second
 	}
 	st := &Stats{}
 	var mu sync.Mutex
@@ -225,7 +225,19 @@ func Run(cfg *Config, cmds []*Cmd, onEvent func(cid int, line []byte)) (*Stats, 
 					default:
 						st.Crashes++
 					}
-					ev := map[string]interface{}{"ev": "fatal", "cid": c.Cid, "m": curM, "res": reason, "desc": curDesc, "msg": tail, "big": reason == "oom"}
+					ev := map[string]interface{}{}
+					if curDesc != "" {
+						_ = json.Unmarshal([]byte(curDesc), &ev)
+					}
+					if _, ok := ev["ev"]; !ok {
+						ev["ev"] = "fatal"
+					}
+					ev["cid"] = c.Cid
+					ev["m"] = curM
+					ev["res"] = reason
+					ev["msg"] = tail
+					ev["big"] = reason == "oom"
+					ev["fatal"] = true
 					eb, _ := json.Marshal(ev)
 					onEvent(c.Cid, eb)
 					mu.Unlock()
